@@ -315,6 +315,7 @@ func WorkerMain(t *testing.T, h Harness) {
 		// a run may carry several violations (e.g. several race reports): known findings are
 		// counted, the first one that is not a known finding is pursued
 		var v *Violation
+		var unconfirmed []*Violation
 		countedKnown := map[string]bool{}
 		for _, cand := range relevantAll(&h, prop, &r) {
 			if kf := matchKnown(known, prop, cand.Signature); kf != nil {
@@ -324,8 +325,42 @@ func WorkerMain(t *testing.T, h Harness) {
 				}
 				continue
 			}
-			if v == nil {
+			if cand.Unconfirmed {
+				unconfirmed = append(unconfirmed, cand)
+			} else if v == nil {
 				v = cand
+			}
+		}
+		if v == nil && len(unconfirmed) > 0 {
+			// seen once, not again when the harness re-executed the tape in this process: two
+			// fresh processes must both show it; what they do not show is counted and dropped
+			stop := false
+			for _, u := range unconfirmed {
+				rf := ReplayFile{Property: prop, Harness: h.Name, Race: RaceBuild, Tier: tier, Seed: seed, RunSeed: runSeed, RunIndex: i, Tape: r.Tape, OrigTape: len(r.Tape), Fresh: true}
+				rf.Expect.Class, rf.Expect.Signature, rf.Message = u.Class, u.Signature, u.Msg
+				rf.Sample = r.Sample
+				_ = os.MkdirAll(replayDir, 0o755)
+				path := filepath.Join(replayDir, fmt.Sprintf("%s-%d-%d.json", prop, seed, i))
+				b, _ := json.MarshalIndent(rf, "", " ")
+				if err := os.WriteFile(path, b, 0o644); err != nil {
+					out.Errors = append(out.Errors, "write replay: "+err.Error())
+					stop = true
+					break
+				}
+				ok, _ := replayInFreshProcess(path)
+				if ok {
+					ok, _ = replayInFreshProcess(path)
+				}
+				if ok {
+					out.Violations = append(out.Violations, WorkerViolation{prop, u.Class, u.Signature, u.Msg, path, i})
+					stop = true
+					break
+				}
+				os.Remove(path)
+				out.Info["unconfirmed_report_dropped"]++
+			}
+			if stop {
+				break
 			}
 		}
 		if v == nil {
